@@ -355,7 +355,7 @@ def gen_c20(seed, n):
     return g.ops, probe
 
 
-def gen_c21(seed, n):
+def gen_c21(seed, n, pre=None):
     """short histories (the number of storage writes W is capped by construction); persistent sessions mostly"""
     r = random.Random(seed)
     g = SGen(r, crash=True)
@@ -369,7 +369,7 @@ def gen_c21(seed, n):
             return g.connect(c, v=4, clean=kw.pop("clean", not persistent), **kw)
         return g.connect(c, v=5, clean=kw.pop("clean", r.random() < 0.2), sei=300 if persistent else r.choice([0, -1]), **kw)
 
-    pre = r.random()
+    pre = r.random() if pre is None else pre
     if pre < 0.25:        # an unacknowledged delivery to a persistent session, then a resuming takeover
         c = r.choice(["a", "b:c"])
         g.connect(c, v=r.choice([4, 5]), clean=False, sei=300)
@@ -559,7 +559,9 @@ def c21(ctx):
     backends = ["bolt", "badger"] if ctx.quick else BACKENDS
     hists = []
     for i in range(nh):
-        ops, probe = gen_c21(ctx.seed * 7919 + i, 9 + (i % 3) * 2)
+        # the first three histories start with the three scenarios that matter most (resuming takeover with an
+        # unacknowledged delivery, session that ends with its connection, colliding storage keys); the rest is random
+        ops, probe = gen_c21(ctx.seed * 7919 + i, 9 + (i % 3) * 2, pre=[0.1, 0.3, 0.5][i] if i < 3 else None)
         hists.append(dict(name="h%d" % i, backends=backends, cfg=dict(DEF_CFG), ops=ops, probe=probe, max_w=60))
     tp, info = _drive(ctx, "c21", hists, "c21")
     chunks = _split(tp, lambda l: l.startswith('{"i":1,"ev":"Config"'), 900)
